@@ -814,14 +814,18 @@ def gen_diffusion(rng, n):
         kd_state = rng.choice([1, 1, 2, 3, 4])      # components of the state's coordinates
         nd = rng.random() < 0.5 or kd_state > 1       # n-d coordinates (else the implicit 1-D layout)
         kd = min(kd_state, 3)
+        s_eff = kd_state if nd else 1
+
+        def kdim_after(m_, kk_):     # D._apply: a higher-dimensional argument upgrades the coordinates
+            return min(max(s_eff, m_ or 1, kk_ or 1), 3)
         if kind == "apply":
             m = rng.choice([None, 1, 2, 3, 4])
-            ok = m is None or m == kd
+            ok = m is None or m == kdim_after(m, None)
             spec = {"call": "apply", "m": m, "kk": None, "kd_state": kd_state, "nd": nd}
             variant = "tensor_%s_on_state_kdim%d" % ("scalar" if m is None else "%dx%d" % (m, m), kd)
         else:
             kk = rng.choice([1, 2, 3, 4])
-            ok = kk == kd
+            ok = kk == kdim_after(None, kk)
             spec = {"call": "apply", "m": None, "kk": kk, "kd_state": kd_state, "nd": nd}
             variant = "shift_arg_%d_components_on_state_kdim%d" % (kk, kd)
         out.append(case("diffusion_dims", variant, spec, "valid" if ok else "invalid"))
@@ -843,7 +847,7 @@ def build_diffusion(spec, QK):
     Dm = 1.0 if m is None else np.eye(m)
     k = None if kk is None else [1.0] * kk
     op = epg.D(5.0, Dm, k)
-    term = "D_apply_ok %s %s %s" % (opt(m, nat), opt(kk, nat), nat(min(kds, 3)))
+    term = "D_apply_ok %s %s %s" % (opt(m, nat), opt(kk, nat), nat(kds if spec["nd"] else 1))
     return (lambda: op(sm)), term
 
 
@@ -888,7 +892,8 @@ def gen_partials(rng, n):
             variant = "%s_%s" % (kind, o1[0])
             if rng.random() < 0.3 and kind != "first_bad":
                 o2 = ["true"]      # order2=True on top: same order1 checks come first
-                if exp == "valid" and (o1[0] in ("alias", "coef") or set(names) != set(params)):
+                used = [o1[1]] if o1[0] == "str" else names
+                if exp == "valid" and (o1[0] in ("alias", "coef") or set(used) != set(params)):
                     exp = "model"   # order2=True names every parameter pair: needs all of them as order1 variables
                 variant += "_second_true"
         else:
@@ -916,8 +921,11 @@ def gen_partials(rng, n):
                 o2 = rng.choice([["pairs", [p]], ["dict", [[p, [rng.choice(params)]]]]])
                 exp = "model"
             elif kind == "second_strlist":
+                exp = "valid"
+                if rng.random() < 0.4:
+                    names.insert(rng.randrange(len(names) + 1), unk())
+                    exp = "invalid"
                 o2 = ["strlist", names]
-                exp = "model"
             elif kind == "second_no_first":
                 o1 = rng.choice([["false"], ["list", []]])
                 o2 = ["pairs", [list(rng.choice(pairs))]]
@@ -1007,7 +1015,7 @@ def build_partials(spec, QK):
     a1, a2 = py_o1(spec["o1"]), py_o2(spec["o2"])
     ctor = {"T": lambda **kw: epg.T(30, 10, **kw), "E": lambda **kw: epg.E(5, 100, 10, 0.5, **kw),
             "P": lambda **kw: epg.P(5, 0.5, **kw), "Phi": lambda **kw: epg.Phi(30, **kw)}[op]
-    term = "parse_partials_ok %s %s %s %s %s" % (QK, stl(params), core.clist([coq_pair(p) for p in pairs]),
+    term = "parse_partials_ok %s %s %s %s" % (stl(params), core.clist([coq_pair(p) for p in pairs]),
                                                 coq_o1(spec["o1"]), coq_o2(spec["o2"]))
     return (lambda: ctor(order1=a1, order2=a2)), term
 
@@ -1274,7 +1282,7 @@ BOUNDARY = {
     "zero_flip_angle_T": (lambda epg, sm: epg.T(0, 0)(sm), "prepare_ok true [1%nat] [1%nat]"),
     "zero_flip_angle_T_array": (lambda epg, sm: epg.T([0.0, 0.0, 30.0], [0, 90, 0])(sm), "prepare_ok true [1%nat] [3%nat]"),
     "zero_flip_angle_order1": (lambda epg, sm: epg.T(0, 0, order1=True, order2=True)(sm),
-                               'parse_partials_ok QK ["alpha"%string; "phi"%string] [] O1True O2False'),
+                               'parse_partials_ok ["alpha"%string; "phi"%string] [] O1True O2False'),
     "zero_phase_Phi": (lambda epg, sm: epg.Phi(0)(sm), "duration_ok (Some [0%Q])"),
     "tau_zero_E": (lambda epg, sm: epg.E(0, 100, 10)(sm), "timed_op_ok DNone [0%Q]"),
     "tau_zero_E_duration_true": (lambda epg, sm: epg.E(0, 100, 10, duration=True)(sm), "timed_op_ok DTrue [0%Q]"),
@@ -1306,7 +1314,7 @@ def build_boundary(spec, QK):
     import epgpy as epg
     f, term = BOUNDARY[spec["name"]]
     sm = epg.T(90, 0)(epg.StateMatrix())
-    return (lambda: f(epg, sm)), term.replace("QK", QK)
+    return (lambda: f(epg, sm)), term
 
 
 # ================================================================== registry
@@ -1329,17 +1337,6 @@ CLASSES = {
 }
 
 
-def probe_quirks():
-    """replay the witness of the listed defect: the model switch follows the code that exists"""
-    import epgpy as epg
-    q3 = observe(lambda: epg.T(30, 0, order1=True, order2=["alpha", "phi"])) == "TypeError"
-    return (q3,)
-
-
-def qk_term(qs):
-    return "(mkQuirks %s)" % core.coq_bool(qs[0])
-
-
 def signature(cs):
     import re
     return {"class": cs["class"], "variant": re.sub(r"\d+", "N", cs["variant"])}
@@ -1347,9 +1344,7 @@ def signature(cs):
 
 def run(ctx):
     proved = ctx.prove(gen=False)
-    qs = probe_quirks()
-    QK = qk_term(qs)
-    ctx.notes["quirk_switches"] = dict(zip(["order2_list"], qs))
+    QK = ""      # no finding switch is left in the model
     scale = 50 if ctx.tier == "quick" else 400
     cases = []
     for name, (gen, _, w) in CLASSES.items():
@@ -1412,8 +1407,7 @@ def run(ctx):
 
 def replay(ctx, rp):
     cs = rp["case"]
-    QK = qk_term(probe_quirks())
-    thunk, term = CLASSES[cs["class"]][1](cs["spec"], QK)
+    thunk, term = CLASSES[cs["class"]][1](cs["spec"], "")
     exc = observe(thunk)
     print("replay: class=%s variant=%s expect=%s -> %s" % (cs["class"], cs["variant"], cs["expect"], exc or "accepted"))
     print("model term: %s" % term)
